@@ -78,6 +78,7 @@ package socket
 //@   property C20
 //@   modifies s.id, lockset
 //@   ensures[set] s.id == id
+//@   ensures[locks-restored] sameLocks()
 
 // Reset(c, pf) leaves no trace of the previous user: id, swap, connection,
 // protocol (rebuilt from the arguments) – exactly what newSocket establishes.
@@ -208,3 +209,20 @@ package socket
 //@ trusted (*socket).ID
 //@   modifies nothing
 //@   ensures[id] result == sockID(s)
+
+// ---- C14: lock discipline of the socket's shared fields ----------------------------
+//@ guarded (*socket).id by idMutex @C14
+//@ guarded (*socket).swap by swapMutex @C14
+//@ guarded (*socket).protocol by mu @C14
+// readerWithBuffer is assigned once, by the constructor (reads need no lock)
+//@ writes (*socket).readerWithBuffer only-in newSocket @C14
+//@ guarded (*socket).Conn by mu @C14
+// callers of these two hold the socket's mutex (documented for RawLocked; Reset
+// and the constructor for initOptimize: the constructor owns the fresh socket)
+//@ func (*socket).RawLocked
+//@   property C14
+//@   requires?[caller-holds-socket-lock] held(addr(s.mu)) || rheld(addr(s.mu)) > 0
+//@ func (*socket).initOptimize
+//@   property C14
+//@   flags libframe
+//@   requires?[caller-holds-socket-lock] held(addr(s.mu))
